@@ -119,20 +119,106 @@ def r17b(ctx: Context) -> None:
     config_sites = [s for s in prog.sites_in(decide) if find in s.targets]
     if not config_sites:
         rule.fail(key + ": configuration", where(decide), "the enabled decision never consults the configuration section of the rule")
-    for site in config_sites:
-        facts = [norm(t) for t, p in guards_of(decide.node, site.node) if p]
-        if f"{value_var} is None" in facts:
-            rule.ok(func_key(decide, site.node), "configuration consulted only when the command line is silent")
-        else:
-            rule.fail(func_key(decide, site.node), site.where, "the configuration section is consulted even when the command line already decided: a configuration file overrides -e/-d")
-    good_default = False
-    for ret in rets:
-        if isinstance(ret, ast.IfExp) and norm(ret.test) == f"{value_var} is None" and "plugin_enabled_by_default" in norm(ret.body) and norm(ret.orelse) == value_var:
-            good_default = True
-    if good_default:
-        rule.ok(key + ": default last", "rule default only when nothing else decided")
+    # The chain as a property of every path through the function (whatever its shape: nested ifs, early returns,
+    # a conditional expression): each value carries its source (command line / configuration / rule default) and
+    # what the path has established about it being None.
+    from sa.cfg import CFG
+    from sa.util import enumerate_paths
+
+    cfg = CFG(decide.node, raising=lambda n: False)
+
+    def source_of(expr: ast.AST) -> Optional[str]:
+        if isinstance(expr, ast.Call):
+            site = site_for(prog, decide, expr)
+            if site and cmd in site.targets:
+                return "cmd"
+            if isinstance(expr.func, ast.Attribute) and expr.func.attr.startswith("get_") and expr.args and isinstance(expr.args[0], ast.Constant) and expr.args[0].value == "enabled":
+                return "config"
+        if isinstance(expr, ast.Attribute) and expr.attr == "plugin_enabled_by_default":
+            return "default"
+        return None
+
+    def narrow(test: ast.AST, outcome: bool, env: Dict[str, str], known: Dict[str, str]) -> None:
+        """record what the branch establishes about the source held by the tested local"""
+        name, is_none = None, None
+        if isinstance(test, ast.Compare) and len(test.ops) == 1 and isinstance(test.left, ast.Name) and isinstance(test.comparators[0], ast.Constant) and test.comparators[0].value is None:
+            name = test.left.id
+            is_none = outcome if isinstance(test.ops[0], ast.Is) else (not outcome) if isinstance(test.ops[0], ast.IsNot) else None
+        elif isinstance(test, ast.Name) and outcome:
+            name, is_none = test.id, False
+        if name is not None and is_none is not None and name in env:
+            known[env[name]] = "none" if is_none else "value"
+
+    problems: List[str] = []
+    verdict_paths = 0
+    for path in enumerate_paths(cfg, loop_bound=1):
+        if path[-1][0] != cfg.exit:
+            continue
+        env: Dict[str, str] = {}
+        known: Dict[str, str] = {}
+        consulted = False
+        returned: Optional[ast.AST] = None
+        for nid, label in path:
+            node = cfg.nodes[nid]
+            stmt = node.ast_node
+            if stmt is None:
+                continue
+            if node.kind == "cond":
+                for sub in ast.walk(stmt):
+                    if isinstance(sub, ast.Call):
+                        site = site_for(prog, decide, sub)
+                        if site and find in site.targets:
+                            consulted = True
+                            if known.get("cmd") != "none":
+                                problems.append("the configuration section is consulted on a path on which the command line has not been found silent")
+                narrow(stmt, label == "true", env, known)
+            elif isinstance(stmt, ast.Assign):
+                for sub in ast.walk(stmt.value):
+                    if isinstance(sub, ast.Call):
+                        site = site_for(prog, decide, sub)
+                        if site and find in site.targets:
+                            consulted = True
+                            if known.get("cmd") != "none":
+                                problems.append("the configuration section is consulted on a path on which the command line has not been found silent")
+                source = source_of(stmt.value)
+                for target in stmt.targets:
+                    if isinstance(target, ast.Name):
+                        if source:
+                            env[target.id] = source
+                            known.pop(source, None) if source != "default" else None
+                        elif isinstance(stmt.value, ast.Name) and stmt.value.id in env:
+                            env[target.id] = env[stmt.value.id]
+                        else:
+                            env.pop(target.id, None)
+            elif isinstance(stmt, ast.Return):
+                returned = stmt.value
+        if returned is None:
+            continue
+        verdict_paths += 1
+        cases: List[Tuple[ast.AST, Dict[str, str]]] = [(returned, dict(known))]
+        if isinstance(returned, ast.IfExp):
+            cases = []
+            for outcome, branch in ((True, returned.body), (False, returned.orelse)):
+                branch_known = dict(known)
+                narrow(returned.test, outcome, env, branch_known)
+                cases.append((branch, branch_known))
+        for value, facts in cases:
+            source = source_of(value) or (env.get(value.id) if isinstance(value, ast.Name) else None)
+            if source is None:
+                problems.append(f"a path returns '{norm(value)[:50]}', which is neither the command-line decision, the configured value nor the rule's default")
+            elif source in ("cmd", "config") and facts.get(source) != "value":
+                problems.append(f"a path returns the {'command-line' if source == 'cmd' else 'configured'} value without having established that it is not None: the next layer never gets its turn")
+            if source in ("config", "default") and facts.get("cmd") != "none":
+                problems.append(f"a path returns the {'configured value' if source == 'config' else 'default'} although the command line may have decided: -e/-d are outranked")
+            if source == "default" and "config" in env.values() and facts.get("config") != "none":
+                problems.append("a path returns the rule's default although the configuration may have set 'enabled'")
+        _ = consulted
+    if verdict_paths == 0:
+        raise AnalysisError(f"{decide.short}: no path returns a decision")
+    if problems:
+        rule.fail(key + ": chain", where(decide), sorted(set(problems))[0] + (f" (+{len(set(problems)) - 1} more)" if len(set(problems)) > 1 else ""))
     else:
-        rule.fail(key + ": default last", where(decide), f"the final result is not 'default if {value_var} is None else {value_var}'")
+        rule.ok(key + ": chain", f"{verdict_paths} path(s): command line, then configuration when it is silent, then the default when both are silent")
     # the 'enabled' key is read as a boolean with no default (None = not mentioned)
     reads = [n for n in walk_local(decide.node) if isinstance(n, ast.Call) and isinstance(n.func, ast.Attribute) and n.func.attr.startswith("get_") and n.args and isinstance(n.args[0], ast.Constant)]
     for read in reads:
